@@ -79,9 +79,9 @@ def replay_cases(v, pid, path):
         print("regenerated part %s: %d occurrence(s) of %s" % (part, len(hits), rep["signature"]))
         return 1 if hits else 0
     src = os.path.join(out, "in.txt")
-    if all(l.split("\t")[0] in ("compact_run", "compact_inv_ok", "restore_disc_ok") for l in lines):
+    if all(l.split("\t")[0] in ("compact_run", "compact_inv_ok", "restore_disc_ok", "behind_run", "behind_inv_ok") for l in lines):
         # observations of a generated part: regenerate that part with the recorded seed/tier
-        part = r.get("part") or ("compact" if lines[0].startswith("compact") else "restore")
+        part = r.get("part") or ("compact" if lines[0].startswith("compact") else "behind" if lines[0].startswith("behind") else "restore")
         cmd = [C.harness_bin("faults"), "faults", "-out", out, "-n", str(r.get("n", 30)), "-seed", str(rep["seed"]), "-part", part]
         if rep.get("tier") == "thorough":
             cmd.append("-thorough")
